@@ -1633,6 +1633,10 @@ impl DistributedTxCoordinator {
                     .release_by_handle_with_wait_cleanup(*lock_handle, &self.wait_graph);
             }
         }
+        // A finished transaction must not stay in the wait-for graph: one that was refused
+        // (it recorded an edge to the holder) and never held a lock of its own is not removed
+        // by the per-handle cleanup above.
+        self.wait_graph.remove_transaction(tx_id);
 
         // Mark all locks released
         let _ = self.log_wal_entry(&TxWalEntry::AllLocksReleased { tx_id });
@@ -1674,6 +1678,10 @@ impl DistributedTxCoordinator {
                     .release_by_handle_with_wait_cleanup(*lock_handle, &self.wait_graph);
             }
         }
+        // A finished transaction must not stay in the wait-for graph: one that was refused
+        // (it recorded an edge to the holder) and never held a lock of its own is not removed
+        // by the per-handle cleanup above.
+        self.wait_graph.remove_transaction(tx_id);
 
         tx.phase = TxPhase::Committed;
         self.stats.committed.fetch_add(1, Ordering::Relaxed);
@@ -1709,6 +1717,10 @@ impl DistributedTxCoordinator {
                     .release_by_handle_with_wait_cleanup(*lock_handle, &self.wait_graph);
             }
         }
+        // A finished transaction must not stay in the wait-for graph: one that was refused
+        // (it recorded an edge to the holder) and never held a lock of its own is not removed
+        // by the per-handle cleanup above.
+        self.wait_graph.remove_transaction(tx_id);
 
         tx.phase = TxPhase::Aborted;
         self.stats.aborted.fetch_add(1, Ordering::Relaxed);
@@ -1765,6 +1777,10 @@ impl DistributedTxCoordinator {
                     .release_by_handle_with_wait_cleanup(*lock_handle, &self.wait_graph);
             }
         }
+        // A finished transaction must not stay in the wait-for graph: one that was refused
+        // (it recorded an edge to the holder) and never held a lock of its own is not removed
+        // by the per-handle cleanup above.
+        self.wait_graph.remove_transaction(tx_id);
 
         tx.phase = TxPhase::Aborted;
         self.stats.aborted.fetch_add(1, Ordering::Relaxed);
@@ -1816,6 +1832,10 @@ impl DistributedTxCoordinator {
                             .release_by_handle_with_wait_cleanup(*lock_handle, &self.wait_graph);
                     }
                 }
+                // A finished transaction must not stay in the wait-for graph: one that was refused
+                // (it recorded an edge to the holder) and never held a lock of its own is not removed
+                // by the per-handle cleanup above.
+                self.wait_graph.remove_transaction(*tx_id);
                 self.stats.timed_out.fetch_add(1, Ordering::Relaxed);
             }
         }
